@@ -349,6 +349,10 @@ func hostileBuild(id, tier string, seed uint64) []any {
 		if s.Family == "rle" {
 			cs = append(cs, &hCase{Kind: "rlefi", Seed: s.Name})
 		}
+		cs = append(cs, &hCase{Kind: "fill", Seed: s.Name})
+		if s.Family == "j2k" {
+			cs = append(cs, &hCase{Kind: "sizshift", Seed: s.Name})
+		}
 	}
 	nHavoc, nSess, sessN := 3, 1, 1200
 	if th {
@@ -827,6 +831,73 @@ func hostileExec(id string, measure bool, d any) mon.Result {
 						fi.BitsAllocated, fi.BitsStored = uint16(ba), uint16(ba)
 						fi.PlanarConfiguration = uint16((w + h + ba) % 3)
 						run(s.Data, fi)
+					}
+				}
+			}
+		}
+	case "fill":
+		// valid header, entropy-coded data replaced by constant patterns; for the JPEG
+		// family also with the frame dimensions set to the 16-bit extremes
+		pats := [][]byte{{0x00}, {0xFF}, {0x7F}, {0x55}, {0xAA}, {0xFF, 0x7F}, {0xFF, 0x00}, {0x80}, {0x01}}
+		lens := []int{4, 64, 1024, 16384}
+		var trailer []byte
+		if len(s.Data) >= 2 {
+			trailer = s.Data[len(s.Data)-2:]
+		}
+		dimOff := -1
+		if s.Family == "jpeg" {
+			if inf, _ := ref.WalkJPEG(s.Data); inf != nil && inf.SOFOffset > 0 {
+				dimOff = inf.SOFOffset + 5 // height (2 bytes), width (2 bytes)
+			}
+		}
+		dims := [][2]int{{-1, -1}, {2, 65535}, {65535, 2}, {1, 65535}, {65535, 1}, {64, 64}}
+		for _, dm := range dims {
+			if dm[0] >= 0 && dimOff < 0 {
+				continue
+			}
+			for _, pt := range pats {
+				for _, ln := range lens {
+					d := append([]byte(nil), s.Data[:s.Header]...)
+					if dm[0] >= 0 && dimOff+4 <= len(d) {
+						d[dimOff], d[dimOff+1] = byte(dm[0]>>8), byte(dm[0])
+						d[dimOff+2], d[dimOff+3] = byte(dm[1]>>8), byte(dm[1])
+					}
+					for len(d) < s.Header+ln {
+						d = append(d, pt...)
+					}
+					run(d, nil)
+					run(append(d, trailer...), nil)
+				}
+			}
+		}
+	case "sizshift":
+		// the same image moved on the reference grid: image offset (dx,dy) with the extents
+		// increased accordingly, one tile covering the grid or the tile grid moved along
+		if len(s.Data) > 46 && s.Data[2] == 0xFF && s.Data[3] == 0x51 {
+			get := func(d []byte, o int) uint32 { return be32u(d[o:]) }
+			put := func(d []byte, o int, v uint32) {
+				d[o], d[o+1], d[o+2], d[o+3] = byte(v>>24), byte(v>>16), byte(v>>8), byte(v)
+			}
+			offs := []uint32{0, 1, 7, 1024, 65536, 1 << 21, 1<<31 - 4096}
+			for _, dx := range offs {
+				for _, dy := range offs {
+					for variant := 0; variant < 3; variant++ {
+						d := append([]byte(nil), s.Data...)
+						xs, ys := get(d, 8), get(d, 12)
+						put(d, 8, xs+dx)
+						put(d, 12, ys+dy)
+						put(d, 16, dx)
+						put(d, 20, dy)
+						switch variant {
+						case 0: // one tile covering the whole grid
+							put(d, 24, xs+dx)
+							put(d, 28, ys+dy)
+						case 1: // tile grid moved with the image
+							put(d, 32, dx)
+							put(d, 36, dy)
+						default: // tile offset at the origin, original tile size (many empty tiles)
+						}
+						run(d, nil)
 					}
 				}
 			}
